@@ -82,6 +82,39 @@ def run(rep, tier):
         rep.ob("R05.2", "stripe-held|%s" % name, bool(acq) and bool(sites) and not bad,
                "doc stripe lock not held at: %s" % ", ".join("%s (line %d)" % (e.name.rsplit("::", 1)[1], e.line) for e in bad), f.file + ":%d" % f.line)
         # the stripe is chosen from the document id being mutated: doc_lock's argument derives from the id parameter
+    # ------------------------------------------------------------------ R05.6 provisional index changes are isolated
+    rep.rule("R05.6", "the provisional index changes of one add / update and their rollback when a later index refuses form one critical section with "
+             "respect to other writers: an exclusive, collection-wide guard is held from the forward pass to the rollback (the operation gate is "
+             "shared between mutations and the document stripe is per id)", floor=2)
+    from . import c02 as _c02
+    fams_ = _c02.families(prog)
+    for name in ("add_impl", "update_impl"):
+        g = prog.fn(anda.COLL + "::" + name)
+        clos = [prog.fns[e.cid] for e in g.creates() if e.cid in prog.fns and _c02.fam_ops(prog, [prog.fns[e.cid]] + prog.closures_of(prog.fns[e.cid]), fams_)]
+        sites = [e for e in g.calls() if any(c.id in prog.callee_nodes(e) for c in clos)]
+        if len(clos) < 2 or len(sites) < 2:
+            raise CheckerFault("anchor missing: forward / rollback index closures of %s" % name)
+        # candidate guards: any lock acquired on a field of the collection other than the shared operation gate and the per-id stripe
+        acq = []
+        for e in g.calls_named(r"(tokio::sync::mutex::Mutex::<T>::lock|lock_api::mutex::Mutex::<R, T>::lock|std::sync::(poison::)?mutex::Mutex::<T>::lock|"
+                               r"tokio::sync::rwlock::RwLock::<T>::write|lock_api::rwlock::RwLock::<R, T>::write)$"):
+            org = g.slice_back_op(e.args[0]) if e.args else []
+            if any(o[0] == "call" and o[1].name.endswith("Collection::doc_lock") for o in org):
+                continue
+            if "operation_gate" in anda.recv_fields(g, e):
+                continue
+            acq.append(e)
+        held_everywhere = False
+        for a in acq:
+            ins, outs = core.guard_flow(g, [a], r"(MutexGuard|RwLockWriteGuard)")
+            if all(ins.get(x.block) for x in sites):
+                held_everywhere = True
+        rep.ob("R05.6", "index-phase-isolated|%s" % name, held_everywhere,
+               "%s publishes its index changes (a unique key taken or, for an update, released) while later indexes may still refuse the call, and no "
+               "exclusive collection-wide guard covers the forward pass and its rollback: a concurrent writer of another document is acknowledged on the "
+               "provisional state - a refused update lends its unique key to a concurrent add (durable duplicate, handle poisoned), a refused add makes a "
+               "concurrent add of the same key fail although no serial order refuses it" % name, g.file + ":%d" % g.line)
+
     # ------------------------------------------------------------------ R05.3
     rep.rule("R05.3", "document ids are allocated by one atomic fetch_add on max_document_id", floor=1)
     n = 0
